@@ -27,7 +27,11 @@ PARTIAL = [
     "shape guards: every theorem about a list-level routine (lu_solve, lu_factor, matrix_pivot, matrix_inverse, matrix_determinant, matrix_multiply, the history theorems) "
     "carries the decidable guard under which the implementation does not raise ValueError/IndexError for the shape of its input (isSquare, luSolveOk, luFactorOk, "
     "matrixInverseOk, matrixMultiplyOk, matrixVectorOk, admissible); the guards are not tested inside the model functions (which pad with 0), they are hypotheses, and "
-    "driver_guard proves they are the test after which the driver answers ERR; nothing is claimed for rejected inputs",
+    "driver_guard is the definitional identity between the guard and the test after which the driver answers ERR (it says nothing about Python); the guards are SUFFICIENT "
+    "(never too weak: enumerated against the real code on all shapes with <= 3 rows of length <= 3), NOT necessary: lu_factor with a right-hand side whose later rows are longer, "
+    "right-hand sides without columns, matrix_pivot on some ragged inputs return in Python (and in the model, same values) although the guard fails "
+    "(guards_sufficient_not_necessary) - the driver would answer ERR there, the generators do not produce these shapes; nothing is claimed outside the guards; "
+    "lu_solve with fewer right-hand-side rows than len(A) is accepted by guard and code but every theorem assumes len(b) = len(A)",
     "collocation matrices have non-zero Doolittle pivots (total positivity): not proved; `luSolve_returns` takes the non-zero pivots as hypothesis, "
     "the oracle checks that lu_solve returns on generated interpolation matrices",
     "matrixPivot max-pivot property (|mp[j][j]| >= |mp[i][j]|, i > j) is checked by the oracle only (it is not part of the property text)",
